@@ -99,6 +99,32 @@ def joint_case(draw, max_n):
     return {"kind": "joint", "n": n, "prep": prep, "order": list(order), "seed": draw(st.integers(0, 2**31 - 1))}
 
 
+@st.composite
+def reset_joint_case(draw, max_n):
+    """Entangling preparation, then resets of superposed / entangled qubits interleaved with further gates (a fresh coin h(c)
+    on purpose), then every qubit measured.  Only the MEASURED outcomes are compared with the distribution quantum mechanics
+    predicts for 'reset = discard the qubit and supply |0>' (a mixture over the two branches of the discarded qubit): a
+    measurement after a reset must be a fresh Born draw, independent of how the reset happened to go."""
+    n = draw(st.integers(2, max_n))
+    a = draw(st.integers(0, n - 1))
+    b = draw(st.integers(0, n - 1).filter(lambda v: v != a))
+    steps = [["ry", a, draw(st.sampled_from([math.pi / 2, 1.0, 2.0, math.pi / 3]))], ["cx", a, b]]
+    steps += [list(g) for g in draw(st.lists(simdrv.gate_op(n), max_size=n))]
+    steps.append(["reset", a])
+    coin = draw(st.integers(0, n - 1).filter(lambda v: v != b))
+    if draw(st.integers(0, 2)) > 0:
+        steps.append(["h", coin])
+    else:
+        steps.append(["ry", coin, draw(st.sampled_from([1.0, 2.0, math.pi / 2]))])
+    for _ in range(draw(st.integers(0, 3))):
+        if draw(st.integers(0, 3)) == 0:
+            steps.append(["reset", draw(st.integers(0, n - 1))])
+        else:
+            steps.append(list(draw(simdrv.gate_op(n))))
+    order = draw(st.permutations(list(range(n))))
+    return {"kind": "reset_joint", "n": n, "steps": steps, "order": list(order), "seed": draw(st.integers(0, 2**31 - 1))}
+
+
 class C02(Check):
     prop = "C02"
     rule = ("collapse: random histories (gates + measurements, n<=5/7) checked exactly against the numpy projection; "
@@ -253,6 +279,70 @@ class C02(Check):
                 return {"why": f"joint distribution: outcome {b:0{n}b} seen {int(counts[b])}/{K}, expected {K * p:.1f} +- {bound:.1f}"}
         return None
 
+    def reset_joint_oracle(self, case, sc, stats=None):
+        n = case["n"]
+        K = self.K
+        ops = [("seed", case["seed"]), ("repeat", K)] + [("alloc",)] * n + [tuple(p) for p in case["steps"]] + \
+              [("measure", q) for q in case["order"]] + [("end",)]
+        r = simdrv.run_script(self.drv, sc, ops, timeout=120)
+        if r.timeout:
+            if stats is not None:
+                stats.inconclusive += 1
+            return None
+        if r.crashed() or r.rc != 0:
+            return {"why": "simulator process died", **r.brief()}
+        objs = [o for o in r.json_lines() if "repeat" in o]
+        if len(objs) != 1:
+            return {"why": "unexpected driver output", **r.brief()}
+        # reference: mixture over the branches of every reset
+        mix = [(1.0, rq.zero_state(n))]
+        random_reset = False
+        for st_ in case["steps"]:
+            if st_[0] != "reset":
+                mix = [(w, rq.apply(psi, tuple(st_))) for w, psi in mix]
+                continue
+            q = st_[1]
+            nxt = []
+            for w, psi in mix:
+                p1 = rq.prob1(psi, q)
+                if 1e-9 < p1 < 1 - 1e-9:
+                    random_reset = True
+                for res, pr in ((0, 1 - p1), (1, p1)):
+                    if pr <= 1e-15:
+                        continue
+                    proj, _ = rq.project(psi, q, res)
+                    if res == 1:
+                        proj = rq.apply(proj, ("x", q))
+                    nxt.append((w * pr, proj))
+            mix = nxt
+        probs = np.zeros(1 << n)
+        for w, psi in mix:
+            probs += w * np.abs(psi) ** 2
+        counts = np.zeros(1 << n)
+        for br in objs[0]["branches"]:
+            if br["key"].startswith("ERR"):
+                return {"why": "simulator raised on a valid history", "obs": br["key"]}
+            b = 0
+            for item in br["key"].strip(";").split(";"):
+                if item[0] != "m":
+                    continue  # the hidden branch of a reset is not an observable
+                qq, v = item[1:].split("=")
+                b |= int(v) << int(qq)
+            counts[b] += br["count"]
+        if stats is not None:
+            stats.record(case, random_reset, sample=case, tags=["reset_then_measure", "born_tests"])
+        for b in range(1 << n):
+            p = float(probs[b])
+            if p <= 1e-12:
+                if counts[b] != 0:
+                    return {"why": f"measured outcome {b:0{n}b} after reset(s) has probability 0 but occurred {int(counts[b])} times"}
+                continue
+            bound = Z * math.sqrt(K * p * (1 - p)) + 1
+            if abs(counts[b] - K * p) > bound:
+                return {"why": f"measurements after reset(s): outcome {b:0{n}b} seen {int(counts[b])}/{K}, expected {K * p:.1f} +- {bound:.1f} "
+                               f"(a measurement after a reset is not an independent Born draw)"}
+        return None
+
     def oracle(self, case):
         with Scratch("c02") as sc:
             k = case["kind"]
@@ -262,6 +352,8 @@ class C02(Check):
                 return self.born_oracle(case, sc)
             if k == "joint":
                 return self.joint_oracle(case, sc)
+            if k == "reset_joint":
+                return self.reset_joint_oracle(case, sc)
             if k == "program":
                 from .. import qchecks
                 return qchecks.c02_program_oracle(self, case, sc)
@@ -280,6 +372,7 @@ def _worker(widx, wseed, tier, check):
             (collapse_case(5 if quick else 7), check.collapse_oracle, 700 if quick else 15000, "collapse"),
             (born_case(4 if quick else 6), check.born_oracle, 60 if quick else 1200, "born"),
             (joint_case(3 if quick else 5), check.joint_oracle, 25 if quick else 500, "joint"),
+            (reset_joint_case(3 if quick else 5), check.reset_joint_oracle, 25 if quick else 500, "reset_joint"),
         ]
         for strat, orc, n, tag in plan:
             def prop(case, stats, orc=orc):
